@@ -98,6 +98,8 @@ TypeOK ==
 Progress == (pc = "loop" /\ cur <= e) => bs >= 1
 
 PartitionCorrect == (mode = "part" /\ pc = "done") => IsPartition(s, e, k, out)
+\* the state machine computes the function used by ParRange.tla
+PartitionIsFn == (mode = "part" /\ pc = "done" /\ ~LegacyNumDays) => out = PartitionFn(s, e, k)
 
 NumDaysCorrect == NumDaysImpl(s, e) = NumDays(s, e)
 
